@@ -4,11 +4,12 @@
 
    Reading guide (Mirror.v).  [parent] = one node of a file opened in CG_MODE_MODIFY: the session mirror (one array of
    (name, id, payload) slots per child kind), the file's child list (one ordered list for all kinds) and the id counter.
-   [run disp s ops] applies a history of OWrite kind name payload (create, or overwrite by name IN THE SAME SLOT while the
+   [run sk disp s ops] applies a history of OWrite kind name payload (create, or overwrite by name IN THE SAME SLOT while the
    file re-creates the node AT THE END), OUpdate kind name payload (cg_coord_write / cg_field_write ...: create, or rewrite
    the existing DataArray_t node in place), ODelete name (cg_delete_node; [disp] says which dispatcher arm is taken for a node
-   of a given kind and name) and OReopen (cg_close + cg_open: the arrays are rebuilt from the file, in file order).
-   [view_session s k] is what cg_n* / cg_*_info / cg_*_read report for kind k now, [view_file s k] what they report
+   of a given kind and name) and OReopen (cg_close + cg_open: the arrays are rebuilt from the file, in file order -- except the kinds k with
+   sk k = true, which are ordered by name: the zones and particle zones of a base, [cgns_sorted]).
+   [view_session s k] is what cg_n* / cg_*_info / cg_*_read report for kind k now, [view_file sk s k] what they report
    after a fresh open; [i_run] applies the same history to the ideal tree (a finite map name -> (kind, payload)).
    Hypotheses of the positive theorems:
      ops_ok kok nok ops   the kinds written satisfy kok, the names used satisfy nok
@@ -25,16 +26,16 @@ Local Open Scope Z_scope.
 (* 1. Content: for EVERY history, from every consistent state: the statuses are those of the ideal tree; the session
       view, the view after a fresh open and the ideal tree agree as finite maps name -> payload for every kind; a fresh
       open reports exactly the file view; no view lists a name twice. *)
-Theorem C04_content : forall kok nok disp ops s0 t0,
+Theorem C04_content : forall kok nok sk disp ops s0 t0,
   Inv kok s0 -> Rel s0 t0 -> disp_ok kok nok disp -> ops_ok kok nok ops -> writes_ok t0 ops ->
-  let s := fst (run disp s0 ops) in
+  let s := fst (run sk disp s0 ops) in
   let t := fst (i_run t0 ops) in
-  snd (run disp s0 ops) = snd (i_run t0 ops) /\
+  snd (run sk disp s0 ops) = snd (i_run t0 ops) /\
   (forall k nm, vlookup nm (view_session s k) = i_view t k nm) /\
-  (forall k nm, vlookup nm (view_file s k) = i_view t k nm) /\
-  (forall k, view_session (reopen s) k = view_file s k) /\
+  (forall k nm, vlookup nm (view_file sk s k) = i_view t k nm) /\
+  (forall k, view_session (reopen sk s) k = view_file sk s k) /\
   (forall k, NoDup (map fst (view_session s k))) /\
-  (forall k, NoDup (map fst (view_file s k))).
+  (forall k, NoDup (map fst (view_file sk s k))).
 Proof. exact content_agree. Qed.
 Print Assumptions C04_content.
 
@@ -48,21 +49,23 @@ Print Assumptions C04_content_any_state.
 
 (* 2. Frame: one operation on one name leaves the payload of EVERY other name of EVERY kind as it was, in the session
       view and in the view after a fresh open (no sibling is altered, hidden, duplicated or removed). *)
-Theorem C04_frame : forall kok nok disp s t o,
+Theorem C04_frame : forall kok nok sk disp s t o,
   Inv kok s -> Rel s t -> disp_ok kok nok disp -> op_names_ok kok nok o = true ->
   write_succeeds t o ->
   forall k' nm', op_name o <> Some nm' ->
-    vlookup nm' (view_session (fst (step disp s o)) k') = vlookup nm' (view_session s k') /\
-    vlookup nm' (view_file (fst (step disp s o)) k') = vlookup nm' (view_file s k').
+    vlookup nm' (view_session (fst (step sk disp s o)) k') = vlookup nm' (view_session s k') /\
+    vlookup nm' (view_file sk (fst (step sk disp s o)) k') = vlookup nm' (view_file sk s k').
 Proof. exact step_frame. Qed.
 Print Assumptions C04_frame.
 
-(* 3. Indices: for the histories that overwrite an existing sibling only when it is the LAST of its kind, the session
-      view and the view after a fresh open are equal AS LISTS (same indices) ... *)
-Theorem C04_order : forall kok nok disp ops s0 t0,
-  Inv kok s0 -> Rel s0 t0 -> OrdInv s0 -> disp_ok kok nok disp -> ops_ok kok nok ops -> writes_ok t0 ops ->
-  hist_order_safe disp s0 ops = true ->
-  forall k, view_session (fst (run disp s0 ops)) k = view_file (fst (run disp s0 ops)) k.
+(* 3. Indices: for the histories over kinds that are not sorted on read (everything but the zones and particle zones
+      of a base) that overwrite an existing sibling only when it is the LAST of its kind, the session view and the
+      view after a fresh open are equal AS LISTS (same indices) ... *)
+Theorem C04_order : forall kok nok sk disp ops s0 t0,
+  Inv kok s0 -> Rel s0 t0 -> OrdInv sk s0 -> disp_ok kok nok disp -> unsorted_kinds kok sk ->
+  ops_ok kok nok ops -> writes_ok t0 ops ->
+  hist_order_safe sk disp s0 ops = true ->
+  forall k, sk k = false -> view_session (fst (run sk disp s0 ops)) k = view_file sk (fst (run sk disp s0 ops)) k.
 Proof. exact order_views. Qed.
 Print Assumptions C04_order.
 
@@ -70,21 +73,33 @@ Print Assumptions C04_order.
       (By design of CGNS: the slot is re-used, the database appends.  Replayed on the library by checks/C04.py.) *)
 Theorem C04_order_refuted :
   writes_ok [] order_witness /\
-  let s := fst (run all_shift empty_parent order_witness) in
+  let s := fst (run no_sort all_shift empty_parent order_witness) in
   vindex "S1" (view_session s K_SOL) = Some 0%nat /\
-  vindex "S1" (view_session (reopen s) K_SOL) = Some 2%nat /\
+  vindex "S1" (view_session (reopen no_sort s) K_SOL) = Some 2%nat /\
   view_session s K_SOL = [("S1", 4); ("S2", 2); ("S3", 3)] /\
-  view_file s K_SOL = [("S2", 2); ("S3", 3); ("S1", 4)].
+  view_file no_sort s K_SOL = [("S2", 2); ("S3", 3); ("S1", 4)].
 Proof. exact order_refuted. Qed.
 Print Assumptions C04_order_refuted.
+
+(*    ... nor for the zones of a base, which cgi_read_base orders by name: create Zc, then Za (no overwrite at all) --
+      Za has index 2 in the session and index 1 after a fresh open.  (Documented behaviour; replayed as well.) *)
+Theorem C04_zone_sort_refuted :
+  writes_ok [] zone_sort_witness /\
+  hist_order_safe base_sort all_shift empty_parent zone_sort_witness = true /\
+  let s := fst (run base_sort all_shift empty_parent zone_sort_witness) in
+  vindex "Za" (view_session s K_ZONE) = Some 1%nat /\
+  vindex "Za" (view_session (reopen base_sort s) K_ZONE) = Some 0%nat /\
+  view_file base_sort s K_ZONE = [("Za", 4); ("Zc", 3)].
+Proof. exact zone_sort_refuted. Qed.
+Print Assumptions C04_zone_sort_refuted.
 
 (* 4. What the hypothesis writes_ok excludes: a write that re-uses the name of a sibling of another kind fails in the
       database AFTER the array was extended -- the session then lists an entity the file does not hold. *)
 Theorem C04_failed_write_refuted :
-  let r := run all_shift empty_parent phantom_witness in
+  let r := run no_sort all_shift empty_parent phantom_witness in
   snd r = [0; 1] /\
   vlookup "S2" (view_session (fst r) K_DISC) = Some 7 /\
-  vlookup "S2" (view_file (fst r) K_DISC) = None /\
+  vlookup "S2" (view_file no_sort (fst r) K_DISC) = None /\
   snd (i_run [] phantom_witness) = [0; 1].
 Proof. exact failed_write_phantom. Qed.
 Print Assumptions C04_failed_write_refuted.
@@ -93,10 +108,10 @@ Print Assumptions C04_failed_write_refuted.
       (a reserved name tested before the label, a parent label without a block) the file node is deleted, the status
       is CG_OK and the session still lists the sibling. *)
 Theorem C04_wrong_arm_refuted :
-  let r := run wrong_arm empty_parent [OWrite "UserDefinedData_t" "DataClass" 5; ODelete "DataClass"] in
+  let r := run no_sort wrong_arm empty_parent [OWrite "UserDefinedData_t" "DataClass" 5; ODelete "DataClass"] in
   snd r = [0; 0] /\
   vlookup "DataClass" (view_session (fst r) "UserDefinedData_t") = Some 5 /\
-  vlookup "DataClass" (view_file (fst r) "UserDefinedData_t") = None.
+  vlookup "DataClass" (view_file no_sort (fst r) "UserDefinedData_t") = None.
 Proof. exact shadowed_delete_diverges. Qed.
 Print Assumptions C04_wrong_arm_refuted.
 
@@ -140,21 +155,27 @@ Theorem C04_addr_tails_consistent : addr_tails_ok free_sigs addr_tails = true.
 Proof. vm_compute. reflexivity. Qed.
 Print Assumptions C04_addr_tails_consistent.
 
+(*    - reading a file orders by name exactly the zones and the particle zones of a base (the two qsort calls of
+        cgi_read_base with the strcmp comparator; cgi_sort_names has no caller): the [cgns_sorted] of the model. *)
+Theorem C04_sorting_consistent : sorting_ok sort_calls sort_comparator sort_names_callers = true.
+Proof. vm_compute. reflexivity. Qed.
+Print Assumptions C04_sorting_consistent.
+
 (* 8. Together: under ANY parent label, with the dispatcher cg_delete_node contains NOW, every history over the sound
       kinds of that parent and unreserved names keeps the three views in agreement. *)
-Theorem C04_content_current_tables : forall pl ops,
+Theorem C04_content_current_tables : forall pl sk ops,
   let kok := fun k => smem k (sound_kinds delete_table not_deletable goto_table pl) in
   let nok := fun nm => negb (smem nm (reserved_names delete_table not_deletable pl)) in
   let disp := disp_of delete_table not_deletable goto_table pl in
   ops_ok kok nok ops -> writes_ok [] ops ->
-  let s := fst (run disp empty_parent ops) in
+  let s := fst (run sk disp empty_parent ops) in
   let t := fst (i_run [] ops) in
-  snd (run disp empty_parent ops) = snd (i_run [] ops) /\
+  snd (run sk disp empty_parent ops) = snd (i_run [] ops) /\
   (forall k nm, vlookup nm (view_session s k) = i_view t k nm) /\
-  (forall k nm, vlookup nm (view_file s k) = i_view t k nm) /\
-  (forall k, view_session (reopen s) k = view_file s k) /\
+  (forall k nm, vlookup nm (view_file sk s k) = i_view t k nm) /\
+  (forall k, view_session (reopen sk s) k = view_file sk s k) /\
   (forall k, NoDup (map fst (view_session s k))) /\
-  (forall k, NoDup (map fst (view_file s k))).
+  (forall k, NoDup (map fst (view_file sk s k))).
 Proof. exact (content_tables delete_table not_deletable goto_table). Qed.
 Print Assumptions C04_content_current_tables.
 
@@ -162,9 +183,9 @@ Print Assumptions C04_content_current_tables.
    of an absent name) meets every hypothesis; the sound kinds of a zone under the current tables are not empty *)
 Example C04_sample_history :
   ops_ok (fun _ => true) (fun _ => true) sample_history /\ writes_ok [] sample_history /\
-  hist_order_safe all_shift empty_parent sample_history = true /\
-  view_session (fst (run all_shift empty_parent sample_history)) K_SOL = [("B", 20); ("C", 30); ("E", 5)] /\
-  snd (run all_shift empty_parent sample_history) = [0; 0; 0; 0; 0; 0; 0; 0; 0; 1; 0].
+  hist_order_safe no_sort all_shift empty_parent sample_history = true /\
+  view_session (fst (run no_sort all_shift empty_parent sample_history)) K_SOL = [("B", 20); ("C", 30); ("E", 5)] /\
+  snd (run no_sort all_shift empty_parent sample_history) = [0; 0; 0; 0; 0; 0; 0; 0; 0; 1; 0].
 Proof. exact sample_history_ok. Qed.
 
 Example C04_zone_kinds_nonempty :
